@@ -1,7 +1,7 @@
 /* stream c04: encode N samples in arbitrary pieces, decode, count (lib/block.c, analysis.c, vorbisfile.c)
    ops:
      case <id>
-     enc <ch> <rate> <quality|managed nominal> <sig> <seed> <pagemode> <fill> <chunk1> <chunk2> ... (a chunk of 0 is not allowed; the list is the partition of N)
+     enc <ch> <rate> <quality|managed nominal> <sig> <seed> <pagemode> <fill> <chunk1> <chunk2> ... (a chunk of 0 is not allowed; the list is the partition of N; a token x<k> is an over-submission: vorbis_analysis_wrote(k) with no room for it)
          quality: a float in [-0.1,1]; or "m<nominal>" for vorbis_encode_init(ch,rate,-1,nominal,-1); or "M<max>:<nominal>:<min>" for hard limits
    answers (one line per API call of the encoder, then the decode side):
      init rc=.. bs0=.. bs1=..
@@ -53,6 +53,13 @@ static int c04_main(int argc,char **argv){
       while(ogg_stream_flush(&os,&og)) buf_page(&out,&og);
       for(k=8;k<=n&&!eos;k++){
         long todo=(k<n)?atol(tok[k]):0; long i; int c; int wr;
+        if(k<n&&tok[k][0]=='x'){
+          /* an application that submits more than vorbis_analysis_buffer handed out: refused, and the refusal must be a no-op */
+          long over=atol(tok[k]+1);
+          wr=vorbis_analysis_wrote(&vd,(int)over);
+          printf("wrote n=%ld rc=%s cur=%d eof=%ld pre=%d\n",over,ovname(wr),vd.pcm_current,(long)(int)vd.eofflag,vd.preextrapolate);
+          continue;
+        }
         if(todo>0){
           float **b=vorbis_analysis_buffer(&vd,todo);
           printf("buffer n=%ld cur=%d storage=%d\n",todo,vd.pcm_current,vd.pcm_storage);
